@@ -22,7 +22,7 @@ CONFIG = {'level': 'proof',
 
 MANIFEST = {'category': 'proof',
  'text': 'Lean theorems (Props/C02.lean): stream_name_injective, delta_name_injective, ref_ne_delta, xname_not_fixed, '
-         'decoder_names_agree; constants_pinned (separator 255, pack cardinalities 50, 16 raw groups, version 3.0, LZ '
+         'decoder_names_agree, decoder_parses_names, part_reader_agrees (array part reader = C13 reader); constants_pinned (separator 255, pack cardinalities 50, 16 raw groups, version 3.0, LZ '
          'constants, tuple tables, the 64 base-64 digits, placeholder 0x7f = the normative literals of the decoder, by '
          'decide on the regenerated tables); unpack_pack / split_pack / unpack_pack_raw; packs_addressing (state machine '
          'of flush_pack_compress_only incl. empty deltas, id reuse and the final partial flush: id i>=1 is entry '
